@@ -226,8 +226,72 @@ func streamKnown(seed uint64, tmp string) *Stats {
 			st.Fail(sc.what, in, g, e)
 		}
 	}
+	cssLayerScenario(st, tmp)
 	st.Finish("one case = the deterministic replay of one recorded finding's failing input (all non-trivial)")
 	return st
 }
 
 var _ = strings.Contains
+
+// CSS entry points whose "@layer" lists come from shared (cached) files: the
+// bundle of one entry point must not depend on which other entry points are
+// built with it, on a context across rebuilds or in one build.  (The linker
+// merges adjacent layer-only entries by appending to a list that may be a
+// cached css_ast.AST's own slice; seeded change C08-3 removed the clone.)
+func cssLayerScenario(st *Stats, tmp string) {
+	dir := filepath.Join(tmp, "klayers")
+	root := filepath.Join(dir, "proj")
+	must(os.MkdirAll(root, 0o755))
+	if rp, err := filepath.EvalSymlinks(root); err == nil {
+		root = rp
+	}
+	old := time.Now().Add(-48 * time.Hour).Truncate(time.Second)
+	files := map[string]string{
+		// three @layer statements: the parser's list has spare capacity (len 3, cap 4)
+		"l1.css": "@layer a1; @layer a2; @layer a3;\n",
+		"l2.css": "@layer b1;\n",
+		"l3.css": "@layer c1;\n",
+		// an earlier copy of a file imported twice is replaced by its layers only; adjacent layer-only entries are merged
+		"ea.css": "@import \"./l1.css\";\n@import \"./l2.css\";\n@import \"./l1.css\";\n@import \"./l2.css\";\n.a { color: red }\n",
+		"eb.css": "@import \"./l1.css\";\n@import \"./l3.css\";\n@import \"./l1.css\";\n@import \"./l3.css\";\n.b { color: blue }\n",
+	}
+	writeTree(root, files, old)
+	mk := func(entries ...string) api.BuildOptions {
+		return api.BuildOptions{AbsWorkingDir: root, EntryPoints: entries, Bundle: true, Outdir: filepath.Join(dir, "out"), LogLevel: api.LogLevelSilent, Write: false}
+	}
+	outOf := func(r api.BuildResult, name string) string {
+		for _, f := range r.OutputFiles {
+			if filepath.Base(f.Path) == name {
+				return string(f.Contents)
+			}
+		}
+		return fmt.Sprintf("<no %s; errors %v>", name, r.Errors)
+	}
+	aloneA := outOf(api.Build(mk("ea.css")), "ea.css")
+	aloneB := outOf(api.Build(mk("eb.css")), "eb.css")
+	in := map[string]interface{}{"scenario": "css-layer-lists-shared-by-entry-points", "files": files}
+	ctx, cerr := api.Context(mk("ea.css", "eb.css"))
+	if cerr != nil {
+		panic(fmt.Sprint(cerr.Errors))
+	}
+	defer ctx.Dispose()
+	defer os.RemoveAll(dir)
+	for round := 0; round < 3; round++ {
+		r := ctx.Rebuild()
+		st.Note("known-scenario", fmt.Sprintf("css-layers-%d", round), true)
+		if a := outOf(r, "ea.css"); a != aloneA {
+			in["round"] = round
+			st.Fail("regression-css-layer-list-contaminated-across-entry-points", in, a, aloneA)
+			return
+		}
+		if b := outOf(r, "eb.css"); b != aloneB {
+			in["round"] = round
+			st.Fail("regression-css-layer-list-contaminated-across-entry-points", in, b, aloneB)
+			return
+		}
+		// an edit that keeps the shared files untouched (cache hits) but changes an entry
+		files["ea.css"] += fmt.Sprintf(".a%d { color: red }\n", round)
+		writeTree(root, map[string]string{"ea.css": files["ea.css"]}, old.Add(time.Duration(round+1)*time.Hour))
+		aloneA = outOf(api.Build(mk("ea.css")), "ea.css")
+	}
+}
